@@ -1,0 +1,73 @@
+//go:build verif
+
+// Contracts for the verification machinery in /verif (comment-only; excluded from normal builds).
+// Properties C29 / C30. Mode bv.
+//
+// Ghost inputs chosen by the environment describe how the program ends:
+//   compiles            the program builds and instantiates
+//   init_out, init_code how package initialisation (the start function) ends: 1 returns, 2 exit(init_code), 3 trap/panic
+//   main_out, main_code how the called function ends, likewise
+// The vendored engine (internal/3rdparty/wazero) is ASSUMED to report these faithfully: InstantiateModule
+// and Function.Call return nil on a normal return, a *sys.ExitError carrying the code when the exit
+// function was called, and some other error on a trap.
+
+package wazero
+
+//@ ghost compiles bool
+//@ ghost init_out int
+//@ ghost init_code uint32
+//@ ghost main_out int
+//@ ghost main_code uint32
+//@ spec (declare-fun exitcode_of (Int) (_ BitVec 32))
+//@ spec outcome() int := ite(!compiles, 0, ite(init_out != 1, init_out, main_out))
+//@ spec outcome_code() uint32 := ite(init_out == 2, init_code, main_code)
+//@ spec phase_contract(out int, code uint32, err error) bool :=
+//@      (out == 1 || out == 2 || out == 3) && ((err == nil) == (out == 1)) &&
+//@      (out == 2 ==> typeis(err, *sys.ExitError) && exitcode_of(payload(err)) == code) &&
+//@      (out == 3 ==> err != nil && !typeis(err, *sys.ExitError))
+// what a caller of RunMain/RunWasm may rely on
+//@ spec run_contract(err error) bool :=
+//@      ((err == nil) == (outcome() == 1)) && outcome() != 0 &&
+//@      (outcome() == 2 ==> typeis(err, *sys.ExitError) && exitcode_of(payload(err)) == outcome_code()) &&
+//@      (outcome() == 3 ==> err != nil && !typeis(err, *sys.ExitError))
+
+// ---- assumed: the vendored engine
+//@ iface wa-lang.org/wa/internal/3rdparty/wazero.Runtime.InstantiateModule
+//@   ensures phase_contract(init_out, init_code, result1)
+//@   ensures result1 == nil ==> result0 != nil
+//@ iface wa-lang.org/wa/internal/3rdparty/wazero/api.Module.ExportedFunction
+//@   ensures result != nil
+//@ iface wa-lang.org/wa/internal/3rdparty/wazero/api.Function.Call
+//@   ensures phase_contract(main_out, main_code, result1)
+//@ extern (*sys.ExitError).ExitCode
+//@   ensures result == exitcode_of(arg0)
+//@ extern (*bytes.Buffer).Bytes
+//@ iface wa-lang.org/wa/internal/3rdparty/wazero.Runtime.Close
+
+//@ func (*Module).buildModule
+//@   trusted
+//@ func BuildModule
+//@   ensures[fail] result1 != nil ==> !compiles && !typeis(result1, *sys.ExitError)
+//@   ensures[ok]   result1 == nil ==> result0 != nil && compiles
+//@   trusted
+
+//@ func AsExitError
+//@   ensures[ok]   ok == typeis(err, *sys.ExitError)
+//@   ensures[code] ok ==> exitCode == int(exitcode_of(payload(err)))
+//@   property C29
+
+//@ func (*Module).RunMain
+//@   requires p != nil && compiles && mainFunc != ""
+//@   ensures[run] run_contract(err)
+//@   noframe
+//@   property C29
+
+//@ func (*Module).Close
+//@   trusted
+
+//@ func RunWasm
+//@   requires mainFunc != ""
+//@   ensures[fail] !compiles ==> err != nil && !typeis(err, *sys.ExitError)
+//@   ensures[run]  compiles ==> run_contract(err)
+//@   noframe
+//@   property C29
